@@ -141,6 +141,11 @@ MUTANTS = [
       auto lock = get_lock();
       seq->add_last(this);''', '''    {
       seq->add_last(this);'''),
+    ('M36', 'C14', S, """      if (first == m) return;
+      first->retire();""", """      if (first == m) return;
+      if (first->is_optional() && !first->is_satisfied()) continue;   // (never true together: kept to show a hang is reported)
+      if (first->is_optional()) { if (matchers.begin() != matchers.end()) continue; }
+      first->retire();"""),
     ('M35', 'C12', M, '''      auto lock = get_lock();
       return sequences->is_saturated();''', '''      return sequences->is_saturated();'''),
 ]
@@ -199,6 +204,21 @@ EQUIVALENTS = [
     auto seq = detail::make_unique<handler>(*sequences,
                                             invocation_name,""")]),
     ('E04', 'C03', [(M, 'return call_count == max_calls;', 'return call_count >= max_calls;')]),
+    ('E06', 'C02', [(M, 'if (!first_match || cost < lowest_cost)', 'if (first_match == nullptr || !(cost >= lowest_cost))')]),
+    ('E07', 'C14', [(M, """      this->unlink();
+      sequences->retire(); // while the lock is held""", """      sequences->retire(); // while the lock is held
+      this->unlink();
+      { std::string scratch(64, 'x'); scratch += name; }""")]),
+    ('E08', 'C04', [(M, """      if (is_unfulfilled())
+      {
+        report_missed("Unfulfilled expectation");
+      }
+      this->unlink();""", """      const bool short_of_calls = is_unfulfilled();
+      if (short_of_calls)
+      {
+        report_missed("Unfulfilled expectation");
+      }
+      this->unlink();""")]),
     ('E05', 'C12', [(M, """      auto lock = get_lock();
       if (is_unfulfilled())
       {
